@@ -1,7 +1,8 @@
 """C19 - parameter YAML round-trips and every documented syntax variant parses."""
 import re
 
-from .. import census, mir, util, opw
+from .. import absint, census, mir, util, opw
+from ..facts import MachineryError
 from ..mir import cname, strip, callee_name, show
 from .C03 import inline
 
@@ -122,12 +123,167 @@ def writer_pieces(ctx, b):
     return pieces
 
 
+class _Ph(str):
+    """placeholder inside an interpreted string: what is printed there (a symbolic value) and how (precision)"""
+
+
+def _writer_by_interpretation(ctx, b):
+    """The text to_yaml returns, obtained by abstract interpretation with every field of `self` a distinct symbol: string
+    operations are evaluated on text in which each printed symbol leaves a placeholder.  Used when the writer is not one
+    format!(..) or a straight line of appends (loops over (key, value) tables, helper functions that join lists, ..).
+    -> [pieces as writer_pieces]"""
+    from ..absint import Interp, Sym
+    prog = ctx.prog
+    fields = [f['name'] for f in prog.adts['parameters::opw_kinematics::Parameters']['variants'][0]['fields']]
+    me = {'#adt': 'parameters::opw_kinematics::Parameters'}
+    for f in fields:
+        me[f] = tuple(Sym((f, i)) for i in range(6)) if f in ('offsets', 'sign_corrections') else Sym((f,))
+    phs = []
+
+    def ph(value, how, prec):
+        phs.append((value, how, prec))
+        return '\x01%d\x02' % (len(phs) - 1)
+
+    def val(I, st, a):
+        while isinstance(a, tuple) and a and a[0] in ('ref', 'refval', 'mref'):
+            a = I.deref(a, st)
+        return a
+
+    def h_str(I, st, a, t, b2):
+        v = val(I, st, a[0])
+        if isinstance(v, str):
+            return v
+        if isinstance(v, Sym):
+            return ph(v, 'to_string', None)
+        raise absint.Unsupported('string from %r' % (v,))
+
+    def h_new(I, st, a, t, b2):
+        return ''
+
+    def h_push_str(I, st, a, t, b2):
+        cur = val(I, st, a[0])
+        add = val(I, st, a[1])
+        if not (isinstance(cur, str) and isinstance(add, str)):
+            raise absint.Unsupported('push_str %r %r' % (cur, add))
+        I._write_ref(st, a[0], cur + add)
+        return ()
+
+    def h_add(I, st, a, t, b2):
+        x, y = val(I, st, a[0]), val(I, st, a[1])
+        if isinstance(x, str) and isinstance(y, str):
+            return x + y
+        raise absint.Unsupported('string + %r %r' % (x, y))
+
+    def h_arg(how):
+        def h(I, st, a, t, b2):
+            return ('fmtarg', val(I, st, a[0]), how)
+        return h
+
+    def h_arguments(I, st, a, t, b2):
+        tm = val(I, st, a[0])
+        args = val(I, st, a[1]) if len(a) > 1 else ()
+        if not (isinstance(tm, tuple) and tm and tm[0] == 'bytes'):
+            raise absint.Unsupported('format template %r' % (tm,))
+        out = ''
+        for p in decode_template(tm[1]):
+            if p[0] == 'lit':
+                out += p[1]
+            else:
+                fa = args[p[1]]
+                v, how = fa[1], fa[2]
+                out += v if (isinstance(v, str) and how == 'display' and p[2] is None) else ph(v, how, p[2])
+        return out
+
+    def h_identity(I, st, a, t, b2):
+        return val(I, st, a[0])
+
+    def h_deg(I, st, a, t, b2):
+        return ph(val(I, st, a[0]), 'deg', None)
+
+    def h_join(I, st, a, t, b2):
+        items = val(I, st, a[0])
+        sep = val(I, st, a[1])
+        return sep.join(items)
+
+    def h_from_str_args(I, st, a, t, b2):
+        return val(I, st, a[0])
+
+    def h_unwrap(I, st, a, t, b2):
+        return ()
+
+    def h_write_fmt(I, st, a, t, b2):
+        cur = val(I, st, a[0])
+        I._write_ref(st, a[0], cur + val(I, st, a[1]))
+        return ('enum', 0, ((),))
+    degs = [p for p in prog.bodies if p == 'utils::deg']
+    H = {'String::new': h_new, 'String::with_capacity': h_new, 'String::from': h_str, 'From::from': h_str, 'ToString::to_string': h_str, 'ToOwned::to_owned': h_str,
+         'str::to_string': h_str, 'String::push_str': h_push_str, 'String::push': h_push_str, 'Add::add': h_add, 'AddAssign::add_assign': h_push_str,
+         'Argument::new_display': h_arg('display'), 'Argument::new_debug': h_arg('debug'), 'Argument::new_lower_exp': h_arg('exp'),
+         'Arguments::new': h_arguments, 'Arguments::from_str': h_from_str_args, 'fmt::format': h_identity, 'hint::must_use': h_identity,
+         'String::as_str': h_identity, 'slice::join': h_join, 'Vec::join': h_join, 'Result::unwrap': h_unwrap, 'Write::write_fmt': h_write_fmt,
+         'Write::write_str': h_push_str, 'i8::to_string': h_str}
+    for dp in degs:
+        H[dp] = h_deg
+        H[cname(dp)] = h_deg
+    I = Interp(prog, H, fuel=400000, max_paths=8)
+    try:
+        outs = I.run(b.path, [('refval', me, ())])
+    except (absint.Unsupported, absint.Undecided) as e:
+        raise MachineryError('to_yaml could not be interpreted (%s): %s' % (type(e).__name__, e))
+    if len(outs) != 1 or not isinstance(outs[0].ret, str):
+        raise MachineryError('to_yaml does not evaluate to one text (%d outcomes)' % len(outs))
+    text = outs[0].ret
+    # back to pieces: literals and one synthetic argument term per placeholder
+    SELF = ('param', 1, 'self')
+    pieces = []
+    pos = 0
+    for m in re.finditer('\x01(\\d+)\x02', text):
+        if m.start() > pos:
+            pieces.append(('lit', text[pos:m.start()]))
+        v, how, prec = phs[int(m.group(1))]
+        tag = v.tag if isinstance(v, Sym) else None
+        if isinstance(tag, tuple) and len(tag) == 1:
+            term = ('fld', SELF, tag[0])
+        elif isinstance(tag, tuple) and len(tag) == 2:
+            term = ('idx', ('fld', SELF, tag[0]), ('const', 'usize', tag[1], None))
+        else:
+            raise MachineryError('to_yaml prints a value that is not a field of self: %r' % (v,))
+        if how == 'display':
+            term = ('call', 'core::fmt::rt::Argument::new_display', term)
+        elif how == 'deg':
+            term = ('call', 'utils::deg', term)
+        elif how == 'to_string':
+            term = ('call', 'alloc::string::ToString::to_string', term)
+        else:
+            term = ('call', 'core::fmt::rt::Argument::new_' + how, term)
+        pieces.append(('fmt', [('ph', 0, prec)], [term]))
+        pos = m.end()
+    if pos < len(text):
+        pieces.append(('lit', text[pos:]))
+    return pieces
+
+
+def _entries_printed(table_arg_terms, f):
+    """indices of self.f printed, in order, from the synthetic argument terms of the interpreted writer"""
+    out = []
+    for a in table_arg_terms:
+        for x in mir.subterms(a, lambda x: x[0] == 'idx' and util.is_self_field(x[1], f)):
+            out.append(util.const_val(x[2]))
+    return out
+
+
 def writer_table(ctx, b):
     """-> {field: (key path tuple, precision, wrapper)}"""
     prog = ctx.prog
     parts = []
     arg_terms = []
-    for p in writer_pieces(ctx, b):
+    try:
+        pieces = writer_pieces(ctx, b)
+        ctx.extra['writer'] = 'format / straight-line appends'
+    except MachineryError:
+        pieces = _writer_by_interpretation(ctx, b)
+        ctx.extra['writer'] = 'interpreted'
+    for p in pieces:
         if p[0] == 'lit':
             parts.append(('lit', p[1]))
         elif p[0] == 'val':
@@ -141,6 +297,8 @@ def writer_table(ctx, b):
     for p in parts:
         text += p[1] if p[0] == 'lit' else '\x00%d\x00' % p[1]
     table = {}
+    printed = {}
+    ctx._printed = printed
     stack = []   # (indent, key)
     for line in text.split('\n'):
         if not line.strip():
@@ -163,6 +321,7 @@ def writer_table(ctx, b):
             wrap = rest.replace('\x00%s\x00' % ph, '{}')
             prec = [p[2] for p in parts if p[0] == 'ph' and p[1] == int(ph)][0]
             table[field] = (path, prec, wrap, a)
+            printed.setdefault(field, []).append(a)
     return table
 
 
@@ -211,14 +370,15 @@ def run(ctx):
     ctx.fn(wr)
     ctx.fn(rd)
     wt = writer_table(ctx, wr)
-    ctx.floor('R19.1 writer entries', len(wt), 10)
+    ctx.floor('R19.1 writer entries', len(wt), 5)          # ten on the confirmed tree; a field that is not written at all is reported below
     oks = [strip(t) for t, d, rb in rd.return_values() if isinstance(strip(t), tuple) and strip(t)[0] == 'agg' and 'Ok' in strip(t)[1]]
     ctx.require(len(oks) == 1, 'Ok(Parameters{..}) return of from_yaml_file')
     agg = strip(oks[0][2])
     names = [f['name'] for f in prog.adts['parameters::opw_kinematics::Parameters']['variants'][0]['fields']]
     rfields = dict(zip(names, agg[2:]))
     for f in FIELDS:
-        ctx.require(f in wt, 'writer entry for field ' + f)
+        if not ctx.check(f in wt, 'R19.1', f, wr.where(0), wr.path, 'to_yaml does not write `%s` (another field is printed in its place, or nothing)' % f, found=sorted(wt)):
+            continue
         wpath, prec, wrap, warg = wt[f]
         rt = rfields[f]
         rt_full = _expand(prog, rd, rt)
@@ -461,6 +621,14 @@ def _converts_to_radians(prog, t):
 
 def _whole_arrays(ctx, wr, wt, pads):
     """R19.1b: the writer prints every entry of the two arrays, or omits exactly the entry the reader's padding restores"""
+    if ctx.extra.get('writer') == 'interpreted':
+        # the entries that were printed are known one by one
+        for f in ('offsets', 'sign_corrections'):
+            idxs = _entries_printed(getattr(ctx, '_printed', {}).get(f, []), f)
+            ok = idxs == [0, 1, 2, 3, 4, 5]
+            ctx.check(ok, 'R19.1', f + '/all-entries', wr.where(0), wr.path,
+                      'to_yaml must print all six entries of `%s` in order (printed: %s)' % (f, idxs), found=str(idxs), detail='entries 0..5 printed')
+        return
     for f in ('offsets', 'sign_corrections'):
         arg = wt[f][3]
         its = mir.subterms(arg, lambda x: x[0] == 'call' and cname(x[1]) in ('slice::iter', 'IntoIterator::into_iter', 'slice::into_iter', 'array::iter'))
